@@ -242,7 +242,9 @@ def check(ctx):
                 n_scan += 1
                 filt = [c for cs in cp.a["ifs"] for c in cs]
                 elt = cp.a["elts"][0] if cp.a["elts"] else None
-                tests = isinstance(elt, tuple) and elt[:1] == ("cmp",) and elt[1] in ("==", "in")
+                tests = isinstance(elt, tuple) and ((elt[:1] == ("cmp",) and elt[1] in ("==", "in")) or (
+                    # an inner any(<test> for ..) over what this generator yields: the inner generator is judged on its own
+                    elt[:2] == ("call", ("builtin", "any")) and len(elt[2]) == 1 and isinstance(elt[2][0], tuple) and elt[2][0][:1] == ("comp",)))
                 ok = not filt and tests and cp.a.get("consumer") == "any"
                 collects = [x for x in frame if x.kind == "ACCUM" and x.a["acc"] in tested_accs and x.a["how"] in ("init", "update")
                             and isinstance(x.a["src"], tuple) and x.a["src"][:1] == ("comp",) and x.file == cp.file and x.line == cp.line]
